@@ -149,7 +149,8 @@ def systematic(tier):
     # waitUntil: the waiting script goes on only after the statement that makes its condition true (set by a script that
     # runs, sleeps or loops first; two waiters on one condition; a waiter spawned late; the condition true already)
     for wpos in range(0, 3):
-        for sbody in ([M, M, ("fs", 1), M], [("sl", 6), ("fs", 1)], [("lp", 9), M, ("fs", 1), M], [("fs", 1)]):
+        for sbody in ([M, M, ("fs", 1), M], [("sl", 6), ("fs", 1)], [("lp", 9), M, ("fs", 1), M], [("fs", 1)],
+                      [M, ("sl", 35), ("fs", 1), M]):      # several rounds of waiting whatever the slice length is
             b1 = [M, M]
             b1 = b1[:wpos] + [("wu", 1)] + b1[wpos:]
             shapes.append(([1, 2], {1: b1, 2: sbody}))
